@@ -1095,11 +1095,10 @@ func c10StuckFrames(dump string) string {
 				}
 				return z + " -> " + c10ShortPkg(third)
 			}
-			// prefer the first third-party (dotted import path) package over standard-library leaf frames
-			if third == "" || !strings.Contains(strings.SplitN(third, "/", 2)[0], ".") && strings.Contains(strings.SplitN(pkg, "/", 2)[0], ".") {
-				if !strings.Contains(name, "c10") {
-					third = pkg
-				}
+			// only a third-party (dotted import path) package is part of the key: which standard-library leaf
+			// (regexp, unicode, strings ...) a sample happens to catch varies from run to run
+			if third == "" && strings.Contains(strings.SplitN(pkg, "/", 2)[0], ".") && !strings.Contains(name, "c10") {
+				third = pkg
 			}
 		}
 	}
